@@ -20,8 +20,9 @@ func init() {
 			"(R6) whenever the offset moves past a compartment that compartment is cleared (the offset-rewind in checkOffset and AppendContainer rely on it); " +
 			"(R7) every constant-bound index/slice in the container operations and their repo callees is justified by a dominating length test or a preceding store of a fresh slice of that length (one named exception: renewCompartments, by the offset invariant); " +
 			"(R8) the width decision tables of varint.Unpack16/32/64 that the number and length-prefix getters rely on to reject oversized values (shared with C10-R2). " +
+			"(R9) WriteToSlice reports 'not emptied' only when bytes are left over: that exit is reachable only across a strict comparison 'target length < compartment length' (an exact fit falls through to the emptied exit). " +
 			"NOT decided: byte-queue equivalence over arbitrary operation sequences.",
-		Rules: []ruleFn{c16R1, c16R2, c16R3, c16R4, c16R5, c16R6, c16R7, func(c *Ctx, r *Report) { unpackWidthRule(c, r, "C16-R8") }},
+		Rules: []ruleFn{c16R1, c16R2, c16R3, c16R4, c16R5, c16R6, c16R7, func(c *Ctx, r *Report) { unpackWidthRule(c, r, "C16-R8") }, c16R9},
 	})
 }
 
@@ -353,4 +354,81 @@ func c16R7(c *Ctx, r *Report) {
 	r.SetFloor(rule, 1)
 	boundsRule(c, r, rule, "a container operation",
 		"container.(*Container).Prepend", "container.(*Container).Append", "container.(*Container).PrependNumber", "container.(*Container).AppendNumber", "container.(*Container).PrependInt", "container.(*Container).AppendInt", "container.(*Container).AppendAsBlock", "container.(*Container).PrependAsBlock", "container.(*Container).AppendContainer", "container.(*Container).AppendContainerAsBlock", "container.(*Container).HoldsData", "container.(*Container).Length", "container.(*Container).Replace", "container.(*Container).CompileData", "container.(*Container).Get", "container.(*Container).GetAll", "container.(*Container).GetAsContainer", "container.(*Container).GetMax", "container.(*Container).WriteToSlice", "container.(*Container).WriteAllTo", "container.(*Container).PrependLength", "container.(*Container).Peek", "container.(*Container).PeekContainer", "container.(*Container).GetNextBlock", "container.(*Container).GetNextBlockAsContainer", "container.(*Container).GetNextN8", "container.(*Container).GetNextN16", "container.(*Container).GetNextN32", "container.(*Container).GetNextN64", "container.(*Container).MarshalJSON", "container.(*Container).UnmarshalJSON", "container.New", "container.NewContainer")
+}
+
+func c16R9(c *Ctx, r *Report) {
+	const rule = "C16-R9"
+	r.SetFloor(rule, 1)
+	fn := c.Func("container.(*Container).WriteToSlice")
+	if fn == nil {
+		r.Undecided(rule, "container.(*Container).WriteToSlice", "anchor function missing")
+		return
+	}
+	lenOf := func(v ssa.Value) (ssa.Value, bool) {
+		call, ok := v.(*ssa.Call)
+		if !ok || calleeName(&call.Call) != "builtin.len" {
+			return nil, false
+		}
+		return call.Call.Args[0], true
+	}
+	isCompartment := func(v ssa.Value) bool {
+		for _, l := range c.Leaves(v) {
+			if u, ok := l.(*ssa.UnOp); ok {
+				if ia, ok := u.X.(*ssa.IndexAddr); ok && strings.HasSuffix(vpath(ia.X), "compartments") {
+					continue
+				}
+			}
+			return false
+		}
+		return true
+	}
+	isTarget := func(v ssa.Value) bool {
+		for _, l := range c.Leaves(v) {
+			if p, ok := l.(*ssa.Parameter); ok && p.Name() == "slice" {
+				continue
+			}
+			if _, ok := l.(*ssa.Slice); ok {
+				continue // slice = slice[k:]
+			}
+			return false
+		}
+		return true
+	}
+	leftover := func(truthy bool, op token.Token, targetLeft bool) Guard {
+		return Guard{Name: "len(slice) < len(compartment)", Truthy: truthy, Match: func(b ssa.Value) bool {
+			bo, ok := b.(*ssa.BinOp)
+			if !ok || bo.Op != op {
+				return false
+			}
+			x, okx := lenOf(bo.X)
+			y, oky := lenOf(bo.Y)
+			if !okx || !oky {
+				return false
+			}
+			if targetLeft {
+				return isTarget(x) && isCompartment(y)
+			}
+			return isCompartment(x) && isTarget(y)
+		}}
+	}
+	gs := []Guard{leftover(true, token.LSS, true), leftover(true, token.GTR, false), leftover(false, token.GEQ, true), leftover(false, token.LEQ, false)}
+	n := 0
+	eachInstr(fn, func(in ssa.Instruction) {
+		ret, ok := in.(*ssa.Return)
+		if !ok {
+			return
+		}
+		b, isC := constBool(retVal(ret, 1))
+		if !isC || b {
+			return
+		}
+		n++
+		p := ReachTargetAvoiding(fn, ret, gs, nil)
+		r.Check(p == nil, rule, fmt.Sprintf("container.(*Container).WriteToSlice / 'not emptied' exit #%d only with bytes left over", n),
+			"reachable only where the target is strictly shorter than the current compartment",
+			"'not emptied' can be returned on an exact fit: the container is empty but reports that it is not", append([]string{c.Pos(ret.Pos())}, c.pathString(p)...)...)
+	})
+	if n == 0 {
+		r.Undecided(rule, fnKey(fn), "no 'not emptied' exit found")
+	}
 }
